@@ -44,6 +44,12 @@ ASSUMPTIONS = [
     "family's business); tags are distinct within a row",
 ]
 MODELLED_NOT_VERIFIED = [
+    "C06: application hooks return normally WITHOUT calling back into the connection in the model and the theorems; a hook "
+    "that sends through send_msg() when on_state_change announces RESENDREQ_HANDLING / ACTIVE is covered by the oracle on "
+    "the real connection only (the message keeps its number and row, the reply is judged against the journal incl. it); "
+    "a hook sending INSIDE the rewind window (should_replay, a second task) is property C14's subject",
+    "C06: the clock - the model takes the SendingTime text per event; the real Codec.current_datetime() runs against a "
+    "patched datetime.utcnow() (standing still, backwards, calendar boundaries) and its text is compared",
     "C06: the protocol dictionary the connection is constructed with is NOT a parameter of the session model (only its "
     "beginstring is, via Generated.Proto); that _process_resend behaves the same with FIXProtocol44, a custom "
     "FIXProtocolBase subclass without session_message_types and a beginstring-only subclass is covered by the "
@@ -261,19 +267,127 @@ def step_shared(impl, a, sr, ev):
     return eff, post, before, snapshot_others(impl)
 
 
+# ---- the wall clock (T family): the REAL Codec.current_datetime() runs, the clock it reads is ours -------
+import datetime as _dtmod
+
+ROW_TIME = _dtmod.datetime(2024, 1, 2) + _dtmod.timedelta(milliseconds=T0 % 86400000)   # SendingTime of rows (S.stamp(T0))
+_D = _dtmod.datetime
+# named clocks: request number i (0, 1, 2) -> what datetime.utcnow() returns while that request is served
+CLOCKS = {
+    "forward": lambda i: ROW_TIME + _dtmod.timedelta(seconds=i + 1, microseconds=[0, 499, 500, 999][i % 4]),
+    "still": lambda i: ROW_TIME,                                              # = the rows' SendingTime, standing still
+    "still-us999": lambda i: ROW_TIME + _dtmod.timedelta(microseconds=999),  # same millisecond text
+    "back": lambda i: ROW_TIME - _dtmod.timedelta(seconds=3 * (i + 1), microseconds=1),
+    "back-1us": lambda i: ROW_TIME - _dtmod.timedelta(microseconds=1 + i),   # ...19.999999 -> text .999
+    "before-copies": lambda i: ROW_TIME - _dtmod.timedelta(seconds=9 + i),   # earlier than the 122 of 'r' rows too
+    "yesterday": lambda i: _D(2024, 1, 1, 23, 59, 59, 999999 - i),
+    "last-year": lambda i: _D(2023, 12, 31, 23, 59, 59, 999500),
+    "leap-day": lambda i: _D(2024, 2, 29, 0, 0, i, 0),
+    "feb28-2100": lambda i: _D(2100, 2, 28, 23, 59, 59, 999499),
+    "feb29-2000": lambda i: _D(2000, 2, 29, 12, 0, 0, 1),
+    "epoch": lambda i: _D(1970, 1, 1, 0, 0, 0, i),
+    "year-9999": lambda i: _D(9999, 12, 31, 23, 59, 59, 999999),
+    "jump": lambda i: ROW_TIME + _dtmod.timedelta(days=400 * i, seconds=1),
+    "zigzag": lambda i: ROW_TIME + _dtmod.timedelta(seconds=[5, -5, 0][i % 3]),
+}
+
+
+def stamp_of(dt):
+    """the SendingTime text of that instant, computed here (truncated milliseconds)"""
+    return "%04d%02d%02d-%02d:%02d:%02d.%03d" % (dt.year, dt.month, dt.day, dt.hour, dt.minute, dt.second,
+                                                 dt.microsecond // 1000)
+
+
+def install_clock(impl):
+    """undo sess_common's stub of Codec.current_datetime (the real method formats again) and give the module
+    the clock it reads: asyncfix.codec.datetime.utcnow() returns impl.c06_dt"""
+    if getattr(impl, "c06_clock", None):
+        return
+    import asyncfix.codec as cmod
+
+    real = impl._saved[2]                      # the staticmethod object sess_common saved
+
+    class FakeDateTime(_dtmod.datetime):
+        @classmethod
+        def utcnow(cls):
+            return impl.c06_dt
+
+        @classmethod
+        def now(cls, tz=None):
+            return impl.c06_dt
+
+    impl.c06_dt = ROW_TIME
+    impl.c06_clock = (cmod, cmod.datetime, impl.Codec.__dict__["current_datetime"])
+    impl.Codec.current_datetime = real
+    cmod.datetime = FakeDateTime
+    assert impl.Codec.current_datetime() == S.stamp(T0), (impl.Codec.current_datetime(), S.stamp(T0))
+
+
+def remove_clock(impl):
+    if getattr(impl, "c06_clock", None):
+        cmod, dt, stub = impl.c06_clock
+        cmod.datetime = dt
+        impl.Codec.current_datetime = stub
+        impl.c06_clock = None
+
+
+def close_impl(impl):
+    remove_clock(impl)
+    impl.close()
+
+
+def step_line(a, sr, ev, stamp_text):
+    """the same step for the model: the event carries the time text of the clock"""
+    return f"sess.step {sr} {a.tokens()} E recv {ev[1]} {S.stok(stamp_text)} {S.msg_tok(ev[2])}"
+
+
+# ---- an application hook that sends (A family) --------------------------------------------------------
+HOOK_TAGS = ((11, "from-hook"), (58, "sent inside on_state_change"))
+
+
+def install_hook(impl, trigger):
+    """on_state_change(trigger) sends an application message through the public send_msg()"""
+    import types
+
+    conn, eff = impl.conn, impl.eff
+
+    async def on_state_change(self, s):
+        eff.append(("S", int(s)))
+        if int(s) == trigger:
+            m = impl.FIXMessage("D")
+            for t, v in HOOK_TAGS:
+                m.set(t, v)
+            await self.send_msg(m)
+
+    conn.on_state_change = types.MethodType(on_state_change, conn)
+
+
+def remove_hook(impl):
+    impl.conn.__dict__.pop("on_state_change", None)
+
+
 def run_impl(impl, case):
     """all requests of a case on the real connection; returns
-    [(pre AbsConn, sr, event, declined, eff, post, other sessions before, other sessions after)]"""
+    [(pre AbsConn, sr, event, declined, eff, post, other sessions before, other sessions after, time text)]"""
     a, sr, declined = make_abs(case)
     steps = []
     rep = case.get("repeat", 1)
     set_protocol(impl, case.get("proto", "fix44"))
-    for i in range(rep):
-        ev = request(a, case["b"], case["e"], T0 + 1000 * (i + 1), case.get("spell", "plain"))
-        eff, post, before, after = step_shared(impl, a, sr, ev)
-        steps.append((a, sr, ev, declined, eff, post, before, after))
-        if i + 1 < rep:
-            a = S.parse_conn_tokens(post)
+    install_clock(impl)
+    clock = CLOCKS[case.get("clock", "forward")]
+    if case.get("hook"):
+        install_hook(impl, case["hook"])
+    try:
+        for i in range(rep):
+            now = T0 + 1000 * (i + 1) if case.get("clock", "forward") in ("forward", "jump") else T0 - 2000 * i
+            ev = request(a, case["b"], case["e"], now, case.get("spell", "plain"))
+            impl.c06_dt = clock(i)
+            eff, post, before, after = step_shared(impl, a, sr, ev)
+            steps.append((a, sr, ev, declined, eff, post, before, after, stamp_of(clock(i))))
+            if i + 1 < rep:
+                a = S.parse_conn_tokens(post)
+    finally:
+        remove_hook(impl)
     return steps
 
 
@@ -376,7 +490,7 @@ def classes(a, b, e):
     return "d9-inverted" if e < b else "d9-bounded"
 
 
-def check_step(a, declined, b, e, eff, post, before=None, after=None):
+def check_step(a, declined, b, e, eff, post, before=None, after=None, stamp_text=None):
     """property clauses for ONE request; returns [(signature, what)]"""
     out = []
     cls = classes(a, b, e)
@@ -389,6 +503,11 @@ def check_step(a, declined, b, e, eff, post, before=None, after=None):
     fails = []      # (clause, detail, is_d9_symptom)
     if other:
         fails.append(("unexpected-effect", ";".join(x[:40] for x in other), False))
+    if stamp_text is not None:
+        for fs in frames:
+            if fget(fs, 52) != stamp_text:
+                fails.append(("sendingtime-not-the-clock", f"52={fget(fs, 52)} clock {stamp_text}", False))
+                break
     if p.next_out != a.next_out:
         fails.append(("next-out-changed", f"{a.next_out} -> {p.next_out}", False))
     if p.stored_out != a.stored_out:
@@ -460,11 +579,49 @@ def check_repeat(steps):
     return out
 
 
+def unhook(a, eff, post, trigger):
+    """A step during which on_state_change(trigger) sent one new message.  Checks that message (fresh number =
+    the counter at that moment, journaled under it, not a duplicate) and returns the step as it would look without
+    the hook: trigger RESENDREQ_HANDLING (before the reply) -> the message belongs to the pre-state, trigger ACTIVE
+    (after the reply) -> it is taken out of the post-state.  Returns (problems, a', eff', post')."""
+    probs = []
+    fired = f"S={trigger}" in eff
+    if not fired:
+        return probs, a, eff, post
+    k = eff.index(f"S={trigger}")
+    if k + 1 >= len(eff) or not eff[k + 1].startswith("W="):
+        return [("hook-message-not-written", f"effects after S={trigger}: {[x[:30] for x in eff[k + 1:k + 3]]}")], a, eff, post
+    fs = S.parse_msg_tok(eff[k + 1][2:])[1]
+    n = a.next_out
+    if fget(fs, 34) != str(n) or fget(fs, 35) != "D" or fget(fs, 43) is not None or body(fs) != [(t, v) for t, v in HOOK_TAGS]:
+        probs.append(("hook-message-wrong", f"expected new message numbered {n}, got 34={fget(fs, 34)} 43={fget(fs, 43)}"))
+    eff2 = eff[:k + 1] + eff[k + 2:]
+    p = S.parse_conn_tokens(post)
+    if trigger == 10:
+        a2 = a.copy()
+        a2.next_out, a2.stored_out = n + 1, n
+        a2.out_rows = list(a.out_rows) + [(n, ("D", fs))]
+        return probs, a2, eff2, post
+    # trigger 17: the message was sent after the reply; it must be there, and is then taken out again
+    rows = dict(p.out_rows)
+    if p.next_out != n + 1 or p.stored_out != n or rows.get(n, (None, None))[1] != fs:
+        probs.append(("hook-message-lost", f"after the request: next_out {p.next_out} stored {p.stored_out} "
+                                           f"row {n} {'missing' if n not in rows else 'differs'}"))
+    p.next_out, p.stored_out = p.next_out - 1, p.stored_out - 1
+    p.out_rows = [r for r in p.out_rows if r[0] != n]
+    return probs, a, eff2, p.tokens()
+
+
 def check_case(case, steps):
     fl = []
-    for (a, sr, ev, declined, eff, post, before, after) in steps:
-        fl += check_step(a, declined, case["b"] + 0, case["e"] + 0, eff, post, before, after)
-    if len(steps) > 1:
+    for (a, sr, ev, declined, eff, post, before, after, stamp_text) in steps:
+        if case.get("hook"):
+            probs, a, eff, post = unhook(a, eff, post, case["hook"])
+            fl += [(f"C06-{k}", f"{k}: {d} (hook at state {case['hook']})") for k, d in probs]
+            if any(k == "hook-message-not-written" for k, _ in probs):
+                continue
+        fl += check_step(a, declined, case["b"] + 0, case["e"] + 0, eff, post, before, after, stamp_text)
+    if len(steps) > 1 and not case.get("hook"):
         a0 = steps[0][0]
         if not classes(a0, case["b"], case["e"]).startswith("d9"):
             fl += check_repeat(steps)
@@ -539,6 +696,37 @@ def offset_cases(alphabet, lengths, rng=None, per_len=None, edge_only=False, sta
                                        "base": base, "nin": max(3, nin), "proto": PROTO_ROT[idx % 5], "const": K}
 
 
+def clock_cases():
+    """CLOCK dimension: rows stamped at ROW_TIME (copies carry an earlier 122), requests served while the wall clock
+    stands still, runs backwards, is a microsecond before / after, on another day / year, at the ends of the calendar"""
+    k = 0
+    for J in (["a"], ["r"], ["n", "o"], ["a", "x", "r"], ["s0", "a"]):
+        for clock in CLOCKS:
+            for (b, e) in ((1, 0), (1, 1)):
+                k += 1
+                yield {"journal": J, "b": b, "e": e, "state": [17, 17, 12][k % 3], "role": 1 + k % 2, "k": k,
+                       "repeat": 3, "clock": clock, "proto": PROTO_ROT[k % 5]}
+
+
+def hook_cases(alphabet, lengths, every=1, phase=0):
+    """RE-ENTRANCY dimension: the application's on_state_change hook sends a new message through send_msg() when
+    RESENDREQ_HANDLING (before the reply) resp. ACTIVE (after the reply) is announced; requests incl. the ones
+    that ask for the number the hook's message takes"""
+    idx = 0
+    for n in lengths:
+        for J in itertools.product(alphabet, repeat=n):
+            idx += 1
+            if (idx + phase) % every:
+                continue
+            for trig in (10, 17):
+                for st in (17,) if idx % 4 else (17, 12):
+                    for b in range(-1, n + 4):
+                        for e in range(-1, n + 4):
+                            yield {"journal": list(J), "b": b, "e": e, "state": st, "role": 1 + idx % 2, "k": idx,
+                                   "hook": trig, "proto": PROTO_ROT[idx % 5],
+                                   "clock": ["forward", "still", "back"][idx % 3]}
+
+
 def long_cases(rng, count):
     """SIZE dimension: long journals (30-120 numbers) at small and large offsets"""
     for i in range(count):
@@ -563,6 +751,7 @@ def sample_cases(rng, count, maxlen=4):
                "sr": rng.choice(["letters", "letters", "letters", "none", "all"]), "k": i,
                "repeat": rng.choice([1, 1, 1, 2, 3]), "proto": rng.choice(PROTO_ROT),
                "spell": rng.choice(["plain", "plain", "zeros", "plus", "ws", "under"]),
+               "clock": rng.choice(["forward"] * 3 + list(CLOCKS)),
                "nin": rng.choice([5, 5, 10, 1000, 2 ** 31])}
 
 
@@ -601,7 +790,8 @@ class Stats:
     def __init__(self):
         self.d = {"class": {}, "length": {}, "state": {}, "frames": {}, "slots": {}, "requests_in_sequence": {},
                   "protocol_dictionary": {}, "magnitude_of_next_num_out": {}, "bound_hits_round_constant": {},
-                  "request_spelling": {}, "magnitude_of_next_num_in": {}}
+                  "request_spelling": {}, "magnitude_of_next_num_in": {}, "wall_clock": {},
+                  "hook_sends_at_state": {}}
         self.nontrivial = set()
 
     def inc(self, k, v):
@@ -617,6 +807,8 @@ class Stats:
         self.inc("magnitude_of_next_num_out", "1e%d" % (len(str(a.next_out)) - 1))
         self.inc("magnitude_of_next_num_in", "1e%d" % (len(str(a.next_in)) - 1))
         self.inc("request_spelling", case.get("spell", "plain"))
+        self.inc("wall_clock", case.get("clock", "forward"))
+        self.inc("hook_sends_at_state", case.get("hook", "-"))
         hit = [k for k in CONSTS if case["e"] == k or case["b"] == k]
         self.inc("bound_hits_round_constant", hit[0] if hit else "-")
         nfr = sum(1 for x in steps[0][4] if x.startswith("W="))
@@ -637,24 +829,26 @@ def run_both(ctx, impl, drv, cases, stats, dis, impl_fail, maxdis=40):
             steps = run_impl(impl, case)
             allsteps.append((case, steps))
             stats.note(case, steps)
-            for (a, sr, ev, *_rest) in steps:
-                lines.append(S.step_line(a, sr, ev))
+            if not case.get("hook"):        # the model has no re-entrant hook: those cases are judged by the oracle only
+                for st in steps:
+                    lines.append(step_line(st[0], st[1], st[2], st[8]))
             for f in check_case(case, steps):
                 if sum(1 for g in impl_fail if g["signature"] == f["signature"]) < 25:
                     impl_fail.append(f)
                 ctx.c06_failcount[f["signature"]] = ctx.c06_failcount.get(f["signature"], 0) + 1
-        model = drv.batch(lines) if drv else []
+        model = drv.batch(lines) if (drv and lines) else []
         i = 0
         for case, steps in allsteps:
             for (a, sr, ev, _d, eff, post, *_rest) in steps:
                 n += 1
-                if drv:
+                if drv and not case.get("hook"):
                     il = S.reply(eff, post)
                     if il != model[i] and len(dis) < maxdis:
                         dis.append({"input": case, "event": S.event_tokens(ev)[:200], "model": model[i][:1500], "impl": il[:1500]})
                     elif il != model[i]:
                         ctx.c06_more_dis = getattr(ctx, "c06_more_dis", 0) + 1
-                i += 1
+                if not case.get("hook"):
+                    i += 1
     return n
 
 
@@ -671,6 +865,14 @@ MAG_RULE_Q = ("; MAGNITUDE: for each of 16 round constants K (9 .. 999999, 10000
               "K, K+1} x EndSeqNo in {0, K-1, K, K+1, last, last+1}; protocol dictionary rotating FIXProtocol44 / custom "
               "FIXProtocolBase subclass without session_message_types / beginstring-only subclass in ALL enumerations; 25 long "
               "journals (30-120 numbers); sampled requests spelled with leading zeros, '+', white space, '_'")
+
+
+R5_RULE = ("; CLOCK: the real Codec.current_datetime() formats a patched datetime.utcnow(); 15 clock behaviours (standing "
+           "still at the rows' SendingTime, +999 us, 1 us / seconds before it, before the copies' OrigSendingTime, previous "
+           "day / year, leap days 2000 / 2024, 28 Feb 2100, epoch, 31 Dec 9999, jumps of 400 days, zig-zag) x 5 journals x 2 "
+           "requests x 3 requests in sequence, and a random clock in every sampled case; the model gets the time text per "
+           "event; RE-ENTRANCY (implementation and oracle only): on_state_change sends a new message at RESENDREQ_HANDLING / at "
+           "ACTIVE, every journal of the scope x every (b, e) incl. the number the hook's message takes")
 
 
 def correspondence(ctx):
@@ -695,22 +897,27 @@ def correspondence(ctx):
             n += run_both(ctx, impl, drv, offset_cases(RED, [2]), stats, dis, impl_fail)
             n += run_both(ctx, impl, drv, offset_cases(FULL, [3], ctx.rng, per_len=12, edge_only=True), stats, dis, impl_fail)
             n += run_both(ctx, impl, drv, long_cases(ctx.rng, 300), stats, dis, impl_fail)
-            rule += MAG_RULE_T
+            n += run_both(ctx, impl, drv, clock_cases(), stats, dis, impl_fail)
+            n += run_both(ctx, impl, drv, hook_cases(RED, range(0, 4)), stats, dis, impl_fail)
+            rule += MAG_RULE_T + R5_RULE
             exhaustive = True
         else:
             rule = ("complete for journals of length <= 2 over the 14 slot kinds x every (b, e) in [-1, len+2]^2 x ACTIVE, and x "
-                    "RESENDREQ_AWAITING for length <= 1 and every 3rd journal of length 2; + 3000 sampled cases (length <= 4, all 14 kinds, counters 1 / 7 / 2^32, filter modes "
+                    "RESENDREQ_AWAITING for length <= 1 and every 3rd journal of length 2; + 2400 sampled cases (length <= 4, all 14 kinds, counters 1 / 7 / 2^32, filter modes "
                     "letters / none / all, 1-3 requests in sequence)")
             n += run_both(ctx, impl, drv, enum_cases(FULL, range(0, 2)), stats, dis, impl_fail)
             n += run_both(ctx, impl, drv, enum_cases(FULL, [2], awaiting_every=3), stats, dis, impl_fail)
-            n += run_both(ctx, impl, drv, sample_cases(ctx.rng, 3000, 4), stats, dis, impl_fail)
+            n += run_both(ctx, impl, drv, sample_cases(ctx.rng, 2400, 4), stats, dis, impl_fail)
             n += run_both(ctx, impl, drv, offset_cases(RED, [1], edge_only=True), stats, dis, impl_fail)
             n += run_both(ctx, impl, drv, offset_cases(FULL, [2, 3], ctx.rng, per_len=1, edge_only=True), stats, dis, impl_fail)
             n += run_both(ctx, impl, drv, long_cases(ctx.rng, 25), stats, dis, impl_fail)
-            rule += MAG_RULE_Q
+            n += run_both(ctx, impl, drv, clock_cases(), stats, dis, impl_fail)
+            n += run_both(ctx, impl, drv, hook_cases(RED, [0, 1]), stats, dis, impl_fail)
+            n += run_both(ctx, impl, drv, hook_cases(RED, [2], every=3, phase=ctx.seed), stats, dis, impl_fail)
+            rule += MAG_RULE_Q + R5_RULE
             exhaustive = False
     finally:
-        impl.close()
+        close_impl(impl)
     ctx.c06_impl_fail = impl_fail
     ctx.c06_corr_steps = n
     if getattr(ctx, "c06_more_dis", 0):
@@ -741,6 +948,9 @@ def oracle(ctx, disagreements, broken):
         n += run_both(ctx, impl, None, enum_cases(RED, range(0, 3 if ran else 4)), stats, [], fails)
         n += run_both(ctx, impl, None, offset_cases(["A", "s"], [1], edge_only=True), stats, [], fails)
         n += run_both(ctx, impl, None, long_cases(ctx.rng, 5), stats, [], fails)
+        if not ran:
+            n += run_both(ctx, impl, None, clock_cases(), stats, [], fails)
+        n += run_both(ctx, impl, None, hook_cases(["A", "s", "h"], [0, 1]), stats, [], fails)
         if broken:
             first = [d["input"] for d in disagreements if isinstance(d.get("input"), dict) and "journal" in d["input"]]
             n += run_both(ctx, impl, None, first, stats, [], fails)
@@ -748,7 +958,7 @@ def oracle(ctx, disagreements, broken):
             n += run_both(ctx, impl, None, offset_cases(RED, range(0, 3)), stats, [], fails)
             n += run_both(ctx, impl, None, sample_cases(ctx.rng, ctx.n(6000, 30000), 5), stats, [], fails)
     finally:
-        impl.close()
+        close_impl(impl)
     fails += getattr(ctx, "c06_impl_fail", [])
     ctx.oracle_stats = {
         "evaluations": n + getattr(ctx, "c06_corr_steps", 0),
@@ -769,7 +979,7 @@ def replay(ctx, rp):
         steps = run_impl(impl, case)
         res = check_case(case, steps)
     finally:
-        impl.close()
+        close_impl(impl)
     sigs = [f["signature"] for f in res]
     print("replay:", case, "->", sigs)
     for st in steps:
